@@ -365,16 +365,17 @@ def minerKey (P : Parsers) (k v : Str) : Except KeyErr Write :=
 def storageKey (P : Parsers) (k v : Str) : Except KeyErr Write :=
   setKey P Generated.C48.storage Generated.C48.storageDispatch (trimSpace k) (trimSpace v)
 
+/-- `strings.ToLower(strings.TrimPrefix(key, "cost."))` -/
+def costKeyOf (k : Str) : Str := toLower (trimPrefix k (str% "cost."))
+
 /-- `setCostValue` of faucetsc / vestingsc (`prefix = "cost"`) and zcnsc (`prefix = "cost."`). -/
 def costValue (P : Parsers) (pfx : Str) (fns : List String) (k v : Str) : Except KeyErr Write :=
   if !hasPrefix k pfx then .error .unknown
-  else
-    let ck := toLower (trimPrefix k (str% "cost."))
-    if fns.any fun f => toLower (S f) = ck then
-      match P.atoi v with
-      | none => .error .unparsable
-      | some i => if i < 0 then .error .negative else .ok (.cost ck i)
-    else .error .unknown
+  else if fns.any fun f => toLower (S f) = costKeyOf k then
+    match P.atoi v with
+    | none => .error .unparsable
+    | some i => if i < 0 then .error .negative else .ok (.cost (costKeyOf k) i)
+  else .error .unknown
 
 /-- the `switch key` of faucetsc `updateConfig`, vestingsc `update`, zcnsc `UpdateConfig` -/
 def switchKey (P : Parsers) (cases : List KeyCase) (deflt : List String) (costPfx : Str) (fns : List String)
